@@ -122,13 +122,41 @@ def observe(args):
 
 def check_file(ev, order, struct, ls_pairs, lang):
     ast = file_ast(ev, order, struct, ls_pairs)
+    return check_trees(ast, [s[1] for s in ast if s[0] == "Line"], EVENT_ORDERS[ev][order], lang)
+
+
+# files whose complete lines arise by substitution of separately given lines: two open names with two alternatives each,
+# at the top and inside a cascade (the amplitudes must come in input order: first daughter slowest)
+_KST, _RHO = "K*(892)bar0", "rho(770)0"
+EXPANDED_FILES = [
+    [["D0", None, None, [ampgen.leaf(_KST), ampgen.leaf(_RHO)]], ["D0", "P", None, [ampgen.leaf(_KST), ampgen.leaf(_RHO)]],
+     [_KST, None, None, [ampgen.leaf("K-"), ampgen.leaf("pi+")]], [_KST, None, "GSpline.EFF", [ampgen.leaf("K-"), ampgen.leaf("pi+")]],
+     [_RHO, None, None, [ampgen.leaf("pi+"), ampgen.leaf("pi-")]], [_RHO, None, "GSpline.EFF", [ampgen.leaf("pi+"), ampgen.leaf("pi-")]]],
+    [["D0", None, None, [ampgen.leaf("K(1)(1270)bar-"), ampgen.leaf("pi+")]],
+     [_RHO, None, "GSpline.EFF", [ampgen.leaf("pi+"), ampgen.leaf("pi-")]],
+     ["K(1)(1270)bar-", None, None, [ampgen.leaf(_RHO), ampgen.leaf("K-")]], ["K(1)(1270)bar-", None, None, [ampgen.leaf(_KST), ampgen.leaf("pi-")]],
+     [_KST, None, None, [ampgen.leaf("K-"), ampgen.leaf("pi+")]], [_RHO, None, None, [ampgen.leaf("pi+"), ampgen.leaf("pi-")]],
+     [_KST, None, "GSpline.EFF", [ampgen.leaf("K-"), ampgen.leaf("pi+")]]],
+]
+
+
+def check_expanded(i, lang):
+    trees = EXPANDED_FILES[i]
+    final = ["K-", "pi+", "pi+", "pi-"]
+    ast = [["EventType", ["D0"] + final]]
+    for name in (_KST, _RHO):
+        ast += [["Const", f"{name}::Spline::Min", "0.1"], ["Const", f"{name}::Spline::Max", "1.9"], ["Const", f"{name}::Spline::N", "4"]]
+    ast += [["Line", t, ["0", "0.5", "0.1"], ["0", "2.0", "0.2"]] for t in trees]
+    want = [x for t in trees if t[0] == "D0" for x in ampgen.expand(t, trees)]
+    return [(s_ + ":expanded", d) for s_, d in check_trees(ast, want, final, lang)]
+
+
+def check_trees(ast, trees, final, lang):
     text = ampgen.render(ast)
     st, res = run_forked(observe, (text, lang))
     if st != "ok":
         return [(f"conversion-exception:{lang}", f"{res}\n{text}")]
     fails = []
-    trees = [s[1] for s in ast if s[0] == "Line"]
-    final = EVENT_ORDERS[ev][order]
     if len(res) != len(trees):
         return [("amplitude-count", f"{len(res)} amplitudes for {len(trees)} complete lines\n{text}")]
     for t, (name, structure, code) in zip(trees, res):
@@ -239,6 +267,9 @@ def check_structure(case):
 def exec_case(kind, payload):
     if kind == "structure":
         return check_structure(payload)
+    if kind == "expanded":
+        isolate.warm(sorted(ampgen.PID))
+        return check_expanded(payload["file"], payload["lang"])
     if kind == "file":
         isolate.warm(sorted(ampgen.PID))
         return check_file(payload["ev"], payload["order"], payload["struct"], [tuple(x) for x in payload["ls"]], payload["lang"])
@@ -252,6 +283,15 @@ def work_structure(cases):
             fails.append(("structure", c, s, d, len(c["leafseq"])))
         outs.add(short_hash(c))
     return {"fails": fails, "outcomes": outs, "traces": len(cases)}
+
+
+def work_expanded(items):
+    fails, outs = [], set()
+    for i, lang in items:
+        for s_, d in check_expanded(i, lang):
+            fails.append(("expanded", {"file": i, "lang": lang}, s_, d, 5))
+        outs.add(short_hash(["expanded", i, lang]))
+    return {"fails": fails, "outcomes": outs, "traces": len(items)}
 
 
 def work_files(items):
@@ -297,6 +337,8 @@ def run(ctx):
     ctx.log(f"(b) {len(items)} option files, {nlines} amplitude lines (spin structures x topologies x lineshape kinds x event-type orders x 2 languages)")
     ctx.rng.shuffle(items)
     run_tasks(ctx, work_files, [[it] for it in items])
+    run_tasks(ctx, work_expanded, [[(i, lang)] for i in range(len(EXPANDED_FILES)) for lang in ("cpp", "py")])
+    ctx.part("b2-expanded-lines", files=len(EXPANDED_FILES), note="amplitudes arising by substitution of separately given lines: once each, in input order")
     ctx.count(states=nlines, transitions=nlines)
     ctx.part("b-generated-code", files=len(items), amplitude_lines=nlines, structures={ev: list(s) for ev, s in STRUCTS.items()}, lineshape_kinds=4, complete=ctx.thorough)
     ex = with_lineshapes(STRUCTS[2]["A_VP"], ["GSpline.EFF", None])
